@@ -241,7 +241,12 @@ def clip_rules(ctx, unit, qn, f):
         st = _stmt(c)
         arg = c.args[0]
         site = f"{qn}: sqrt({norm_src(arg)[:40]})"
-        if _floored(arg):
+        try:
+            from ..match import resolve_expr as _re
+            rarg = _re(cfg, _cfg_stmt(cfg, c), arg)
+        except Exception:
+            rarg = arg
+        if _floored(arg) or _floored(rarg):
             ctx.ok("C13-b", site, "floored at 0")
             if isinstance(st, ast.Assign) and isinstance(st.targets[0], ast.Name):
                 floored_vars.add(st.targets[0].id)
